@@ -305,6 +305,17 @@ def gen_threads(rng, ctx, pop, idx):
                 return _short(r)
             t = corpus.MEDIUM[r.randrange(len(corpus.MEDIUM))]
             return t if len(t) <= 200 else _short(r)
+    # steady state: in half of the runs every thread formats with the SAME
+    # option set (so the same filter classes run concurrently) on texts that
+    # drive the stateful layout filters through their nested blocks
+    shared_opts = None
+    if pop == 'S' and rng.random() < 0.5:
+        shared_opts = corpus.draw_opts(rng)
+        if not shared_opts or rng.random() < 0.5:
+            shared_opts = dict(rng.choice(
+                [o for o in corpus.LAYOUT_OPTS if o]
+                + [{'output_format': 'python', 'reindent': True},
+                   {'strip_comments': True, 'reindent_aligned': True}]))
     progs = []
     for t in range(nth):
         prog = []
@@ -319,6 +330,12 @@ def gen_threads(rng, ctx, pop, idx):
                      "select a from b; update t set a = 1; select 3;",
                      "select 1;\n\n\nselect 2;   select 3\n;select 4"])
                 prog.append({'k': 'lazy', 'inp': {'t': 'str', 'v': text}})
+            elif shared_opts is not None and r < 0.9:
+                text = rng.choice(corpus.RICH) if rng.random() < 0.7 \
+                    else text_fn(rng)
+                prog.append({'k': 'call', 'api': 'format',
+                             'inp': {'t': 'str', 'v': text},
+                             'opts': dict(shared_opts)})
             else:
                 c = _checked_call(rng, text_fn)
                 prog.append({'k': 'call', 'api': c['api'], 'inp': c['inp'],
